@@ -217,5 +217,6 @@ pub fn pledge_penalty_for_invalid_windowpost(reward_estimate: &FilterEstimate, n
 pub uninterp spec fn rdwp_spec(proof_type: RegisteredPoStProof, raw: int, qa: int) -> int;
 #[verifier::external_body]
 pub fn reward_for_disputed_window_post(proof_type: RegisteredPoStProof, disputed_power: PowerPair) -> (r: TokenAmount)
-    ensures r@ == rdwp_spec(proof_type, disputed_power.raw@, disputed_power.qa@)
+    // the real value is the positive constant BASE_REWARD_FOR_DISPUTED_WINDOW_POST (4 FIL), whatever the arguments
+    ensures r@ == rdwp_spec(proof_type, disputed_power.raw@, disputed_power.qa@), r@ >= 0
 { unimplemented!() }
